@@ -717,6 +717,9 @@ func c10One(run *Run, c kvCase) {
 		last := segs[len(segs)-1]
 		if listNodeBeforeLast(c.Map, c.Path) && last != key {
 			k = "list-node-last-key-ignored"
+		} else if listNodeBeforeLast(c.Map, c.Path) && last == key && len(conds) > 0 && cnt < wcnt {
+			// members of a list node: the k entry is replaced as a whole or not at all, never member-wise
+			k = "list-node-no-memberwise"
 		} else {
 			// created an entry that was absent?
 			alt := deepCopy(c.Map).(map[string]interface{})
